@@ -197,6 +197,9 @@ pub fn tree_walker(
 
         for entry in WalkDir::new(&source)
             .follow_links(config.dereference)
+            // A source that is itself a symbolic link is copied as a
+            // link unless dereferencing; don't descend through it.
+            .follow_root_links(false)
             .into_iter()
             .filter_entry(|e| ignore_filter(e, &gitignore))
         {
